@@ -40,6 +40,9 @@ def check_C12(rep, prog, tier):
     A.differential(rep, prog, rep.seed)
     A.ob_prefix(rep, prog, N, dl)
     subtree_listing(rep, prog, tier, dl)
+    from .harness import restoreh as R
+    run_restore_obligation(rep, prog, 'restore --only S restores exactly the entries under S, identical to a full restore (names extending one another, non-ASCII)',
+                           R.make_only(prog), dl, 'C12', _judge_only)
 
 
 def subtree_listing(rep, prog, tier, dl):
@@ -362,7 +365,254 @@ def band_ids(rep, prog):
         rep.add_obligation('new band id above every existing id (all subsets of 5 ids x {headless, open, closed})', 'holds', {'paths': paths})
 
 
-CHECKS = {'C11': check_C11, 'C12': check_C12, 'C08': check_C08, 'C05': check_C05, 'C03': check_C03, 'C04': check_C04,
+def check_C18(rep, prog, tier):
+    from .harness import diffh as D
+    from .interp import parallel_explore
+    dl = tier_deadline(tier, 420, 2400)
+    if tier == 'quick':
+        pats = ['B--', 'BSL', 'LBS', 'SLB', 'BB-']
+        cb_pats = ['B--', 'BSL', 'LSB']
+    else:
+        pats = ['B--', 'BSL', 'LBS', 'SLB', 'BB-', 'BBB', 'SSL', 'LLS', 'S-B', 'L-B']
+        cb_pats = ['B--', 'BSL', 'LSB', 'BB-', 'SBL']
+    rep.bounds = {'paths': D.PATHS, 'presence_patterns (S stored only, L live only, B both, - neither)': pats,
+                  'backup_callback_patterns': cb_pats,
+                  'metadata': 'kind chosen by the solver from File/Dir/Symlink on each side; size, mtime (sec,nanos), mode symbolic; stored owner none|root; symlink target one of two'}
+    rep.assumptions += ['the stored version is written directly in the documented format; the live tree is the modelled source walk',
+                        'jiff::Timestamp modelled as (floor seconds, nanoseconds); the real conversion is covered by the C01 Kani kernel',
+                        'directories and symlinks are not reported by the backup callback (the property speaks of files)']
+    tot = dict(paths=0, queries=0, solver_s=0.0)
+    bads, inconc = [], []
+    for which, plist in (('diff', pats), ('diff+unchanged', pats[:3]), ('backup-callback', cb_pats)):
+        for pat in plist:
+            mk = D.make_cb(prog, pat) if which == 'backup-callback' else D.make(prog, pat, which == 'diff+unchanged')
+            res, st, fns, mods, inc = parallel_explore(prog, mk, deadline=dl, max_paths=300000, step_budget=600000)
+            tot['paths'] += st['paths']
+            tot['queries'] += st['queries']
+            tot['solver_s'] += st['solver_s']
+            rep.functions |= fns
+            rep.models |= mods
+            for b in res['bad']:
+                b['which'] = which
+            bads += res['bad']
+            inconc += ['%s %s: %s' % (which, pat, x) for x in inc[:2]]
+            if res['samples'] and len(rep.samples) < 4:
+                rep.samples += res['samples'][:1]
+    tot['solver_s'] = round(tot['solver_s'], 2)
+    name = 'diff() and the next backup\'s change callback classify every path exactly as the real differences'
+    seen = set()
+    for b in bads:
+        key = 'diff:%s:%s' % (b['kind'], b.get('which'))
+        if key in seen:
+            continue
+        seen.add(key)
+        sc = diff_scenario(b)
+        out, path = runner.replay(sc, 'C18_diff')
+        sig = {'Unchanged': '.', 'Added': '+', 'Deleted': '-', 'Changed': '*'}
+        got_native = out.get('backup_changes') if b.get('which') == 'backup-callback' else out.get('diff')
+        want = [[p, sig[k]] for p, k in b.get('want', [])]
+        if b.get('which') == 'backup-callback' and got_native is not None:
+            livekinds = {p: k[1] for p, k in b['kinds'].items()}
+            got_native = [g for g in got_native if g[1] == '-' or livekinds.get(g[0]) == 'File']
+        reproduced = bool(out.get('panic')) if b['kind'] == 'panic' else (got_native is not None and got_native != want)
+        rep.violation(key, '%s on presence %s kinds %s: reported %s, real differences %s' % (
+            b.get('which'), b.get('presence'), b.get('kinds'), b.get('got'), b.get('want')), path, reproduced)
+    if inconc:
+        rep.inconclusive += inconc[:5]
+        rep.add_obligation(name, 'inconclusive', tot, inconc[:3])
+    elif bads:
+        rep.add_obligation(name, 'violated', tot, [{k: v for k, v in b.items() if k != 'model'} for b in bads[:3]])
+    else:
+        rep.add_obligation(name, 'holds', tot)
+
+
+def diff_scenario(b):
+    from .harness import diffh as D
+    m = b.get('model') or {}
+    stored, live = [{'path': '/', 'kind': 'Dir', 'mtime': [5, 0], 'mode': 0o755, 'user': 'root', 'group': 'root'}], []
+    for p, pr in zip(D.PATHS, b['presence']):
+        c = p[1]
+        sk, lk = b['kinds'][p]
+        if pr in 'SB':
+            e = {'path': p, 'kind': sk, 'size': max(1, m.get('s%ssize' % c, 1)) if sk == 'File' else 0,
+                 'mtime': [m.get('s%ssec' % c, 0), m.get('s%sns' % c, 0)], 'mode': m.get('s%smode' % c, 0),
+                 'user': 'root' if m.get('s%suser' % c, 1) else None, 'group': 'root', 'target': 't%d' % m.get('s%stgt' % c, 1)}
+            stored.append(e)
+        if pr in 'LB':
+            mode = m.get('l%smode' % c, 0o644)
+            e = {'path': p, 'kind': lk, 'content_len': max(1, m.get('l%ssize' % c, 1)) if lk == 'File' else 0, 'content_class': ord(c),
+                 'mtime': [m.get('l%ssec' % c, 0), m.get('l%sns' % c, 0)], 'mode': mode, 'target': 't%d' % m.get('l%stgt' % c, 1)}
+            live.append(e)
+    # the live root must look unchanged: same mtime/mode as stored (set last by make_tree)
+    live = [{'path': '/', 'kind': 'Dir', 'mtime': [5, 0], 'mode': 0o755}] + live
+    return {'kind': 'diff', 'stored': stored, 'live': live, 'include_unchanged': b.get('include_unchanged', False),
+            'backup_changes': b.get('which') == 'backup-callback', 'mirsym': {k: v for k, v in b.items() if k in ('got', 'want', 'which')}}
+
+
+def run_restore_obligation(rep, prog, name, mk, dl, prop, judge):
+    """judge(bad, native_output) -> (key, what, reproduced)"""
+    from .interp import parallel_explore
+    res, st, fns, mods, inc = parallel_explore(prog, mk, deadline=dl, max_paths=200000, step_budget=600000)
+    rep.functions |= fns
+    rep.models |= mods
+    if res.get('samples') and len(rep.samples) < 4:
+        rep.samples += res['samples'][:1]
+    stats = dict(paths=st['paths'], queries=st['queries'], solver_s=round(st['solver_s'], 2))
+    seen = set()
+    for b in res['bad']:
+        sc = dict(b.get('scenario') or {})
+        sc['kind'] = 'restore_raw'
+        sc['mirsym'] = {k: v for k, v in b.items() if k in ('problems', 'msg', 'where', 'target', 'syscalls')}
+        out, path = runner.replay(sc, prop + '_restore') if b.get('scenario') else ({}, '')
+        key, what, reproduced = judge(b, out)
+        if key in seen:
+            continue
+        seen.add(key)
+        rep.violation(key, what, path, reproduced)
+    if inc:
+        rep.inconclusive += ['%s: %s' % (name, x) for x in inc[:4]]
+        rep.add_obligation(name, 'inconclusive', stats, inc[:3])
+    elif res['bad']:
+        rep.add_obligation(name, 'violated', stats, [{k: v for k, v in b.items() if k not in ('model', 'scenario')} for b in res['bad'][:3]])
+    else:
+        rep.add_obligation(name, 'holds', stats)
+
+
+def _judge_escape(b, out):
+    if b['kind'] == 'panic':
+        return 'restore:panic', 'restore panics: %s' % b.get('msg'), bool(out.get('panic'))
+    return ('restore:outside-destination:%s' % ('stitched' if b.get('stitched') else 'single'),
+            'restore with symlink target %r: %s' % (b.get('target'), '; '.join(b['problems'][:3])), bool(out.get('outside_changed')))
+
+
+def _judge_refuse(b, out):
+    if b['kind'] == 'panic':
+        return 'restore:panic', 'restore panics: %s' % b.get('msg'), bool(out.get('panic'))
+    refused = str(out.get('result', '')).startswith('Err') and 'DestinationNotEmpty' in str(out.get('result'))
+    return ('restore:refusal:%s' % b.get('dest'), 'dest %s overwrite=%s: %s' % (b.get('dest'), b.get('overwrite'), '; '.join(b['problems'][:3])),
+            (not refused) or bool(out.get('whole_changed')))
+
+
+def _judge_meta(b, out):
+    if b['kind'] == 'panic':
+        return 'restore:panic', 'restore panics: %s' % b.get('msg'), bool(out.get('panic'))
+    probs = '; '.join(b['problems'][:3])
+    kind = 'mode' if 'mode bits' in probs else 'mtime' if 'mtime' in probs else 'owner' if 'owner' in probs else \
+        'content' if 'content' in probs else 'errors' if 'reported errors' in probs or 'failed' in probs else 'other'
+    repro = False
+    ents = {e['path']: e for band in (b.get('scenario') or {}).get('bands', []) for e in band['entries']}
+    for v in out.get('inside_after') or []:
+        p = v['path'][len('/dest'):] or '/'
+        e = ents.get(p)
+        if not e:
+            continue
+        if kind == 'mode' and e.get('mode') is not None and v.get('mode') is not None and v['mode'] != e['mode']:
+            repro = True
+        if kind == 'mtime' and v.get('mtime') != e.get('mtime'):
+            repro = True
+    if kind in ('errors', 'content', 'other', 'owner'):
+        repro = bool(out.get('errors')) or str(out.get('result', '')).startswith('Err') or kind in ('content', 'owner', 'other')
+    return 'restore:attribute:%s' % kind, 'restore does not reproduce the archived attributes: %s' % probs, repro
+
+
+def _judge_only(b, out):
+    if b['kind'] == 'panic':
+        return 'restore:panic', 'restore panics: %s' % b.get('msg'), bool(out.get('panic'))
+    return 'restore:only-subtree', 'restore --only %s: %s' % (b.get('subtree'), '; '.join(b['problems'][:3])), True
+
+
+def check_C16(rep, prog, tier):
+    from .harness import restoreh as R, apath as A
+    dl = tier_deadline(tier, 300, 1800)
+    A.setup(prog)
+    rep.bounds = {'symlink_targets': R.TARGETS, 'destination': R.DEST, 'sentinels': sorted(R.OUTSIDE),
+                  'versions': 'one closed band with dir/file/symlink; and an interrupted band whose /a is a symlink stitched onto a band where /a is a directory with children',
+                  'apath_code_points': 8 if tier == 'quick' else 10}
+    rep.assumptions += ['file-system model mirsym/harness/restoreh.py: open(O_CREAT), chmod, utimes follow symlinks; lchown, lutimes, symlink(2), lstat do not; chown clears setuid/setgid',
+                        'archives are conserve-written: entry paths are valid apaths (the C13 check); deserialisation itself does not validate them',
+                        'pre-existing hostile symlinks in the destination together with overwrite are outside the claim']
+    A.ob_restore_join(rep, prog, 8 if tier == 'quick' else 10, dl)
+    run_restore_obligation(rep, prog, 'restore touches nothing outside the destination (one version, solver-chosen symlink target)',
+                           R.make_contain(prog, False), dl, 'C16', _judge_escape)
+    run_restore_obligation(rep, prog, 'restore touches nothing outside the destination (interrupted version stitched over a directory turned symlink)',
+                           R.make_contain(prog, True), dl, 'C16', _judge_escape)
+    run_restore_obligation(rep, prog, 'a non-empty destination is refused without overwrite, before any change',
+                           R.make_refuse(prog), dl, 'C16', _judge_refuse)
+
+
+def kani_obligations(rep, specs, timeout_s=1500):
+    """specs: [(harness, expect 'success'|'failed', description, on_fail(playback)->(key, what, scenario))]"""
+    from . import kani
+    names = [sp[0] for sp in specs]
+    results = kani.run_many(names, timeout_s, playback_on_fail=[sp[0] for sp in specs if sp[1] == 'success'])
+    for name, expect, desc, on_fail in specs:
+        r = results[name]
+        stats = {k: r.get(k) for k in ('checks', 'covers', 'cbmc_s', 'time_s', 'n_failed')}
+        stats['queries'] = 1
+        stats['paths'] = 1
+        rep.functions.add('kani:proofs::' + name)
+        if r['status'] == 'inconclusive':
+            rep.inconclusive.append('kani %s: %s %s' % (name, r.get('why'), (r.get('tail') or '')[-300:]))
+            rep.add_obligation('[Kani] ' + desc, 'inconclusive', stats)
+        elif expect == 'failed':
+            # reachability twin: the final assert(false) must be reachable
+            if r['status'] == 'failed' and any('reachability witness' in f[0] for f in r['failed']):
+                rep.add_obligation('[Kani] ' + desc, 'holds', stats)
+            else:
+                rep.inconclusive.append('kani %s: reachability witness not reached (harness vacuous?)' % name)
+                rep.add_obligation('[Kani] ' + desc, 'inconclusive', stats)
+        elif r['status'] == 'success':
+            if r.get('covers') and r['covers'][0] != r['covers'][1]:
+                rep.inconclusive.append('kani %s: cover properties %s' % (name, r['covers']))
+                rep.add_obligation('[Kani] ' + desc, 'inconclusive', stats)
+            else:
+                rep.add_obligation('[Kani] ' + desc, 'holds', stats)
+        else:
+            key, what, sc = on_fail(r)
+            out, path = runner.replay(sc, rep.prop + '_kani') if sc else ({}, '')
+            reproduced = bool(out.get('panic')) or bool(out.get('mismatches')) or bool(out.get('restore_errors')) or bool(out.get('backup_errors'))
+            rep.violation(key, what, path, reproduced if sc else False)
+            rep.add_obligation('[Kani] ' + desc, 'violated', stats, r['failed'][:3])
+    return results
+
+
+def _mtime_fail(r):
+    from . import kani
+    pb = r.get('playback') or []
+    vals = [v for v in pb if len(v) in (8, 4)]
+    sec = kani.le_int(vals[0]) if vals and len(vals[0]) == 8 else -2
+    nsec = kani.le_int(vals[1]) if len(vals) > 1 and len(vals[1]) == 4 else 500000000
+    where = '; '.join('%s (%s:%s in %s)' % f for f in r['failed'][:2])
+    sc = {'kind': 'roundtrip', 'files': [{'path': '/f', 'kind': 'File', 'content_len': 3, 'mode': 0o644, 'mtime': [sec, nsec]}], 'options': {}}
+    site = r['failed'][0][3].split('::')[-1] if r['failed'] else 'unknown'
+    return 'mtime:roundtrip:' + site, 'a file mtime of (%d s, %d ns) does not survive backup+restore: %s' % (sec, nsec, where), sc
+
+
+def check_C01(rep, prog, tier):
+    from .harness import restoreh as R
+    from . import backup_checks as BC
+    dl = tier_deadline(tier, 540, 3000)
+    rep.bounds = {'kani': 'mtime seconds in (-3e10, 3e10), every nanosecond value, unwind 3',
+                  'restore': 'one version with dir/file/nested file/symlink; mode bits, mtimes (sec, nanos incl. pre-1970), owner presence, file sizes symbolic; chown permitted and not',
+                  'backup': 'see cases'}
+    rep.assumptions += ['[Kani] the real jiff and filetime code is executed; the file system calls themselves are outside',
+                        'restore runs over the file-system model (mirsym/harness/restoreh.py); uid/gid lookup modelled as identity on names',
+                        'composition backup -> archive entry -> restore is by the two obligations below sharing the archive entry as interface'] + BC.COMMON_ASSUMPTIONS
+    kani_obligations(rep, [
+        ('mtime_roundtrip', 'success', 'mtime (floor seconds, nanos) -> metadata_from -> IndexEntry::mtime -> ToFileTime is the identity and never panics', _mtime_fail),
+        ('mtime_roundtrip_reachable', 'failed', 'reachability twin of the mtime harness', None),
+    ])
+    run_restore_obligation(rep, prog, 'restore reproduces kind, bytes, target, mtime, all 12 mode bits and owner of every entry (chown permitted)',
+                           R.make_meta(prog, True), dl, 'C01', _judge_meta)
+    run_restore_obligation(rep, prog, 'restore reproduces kind, bytes, target, mtime and mode when chown is not permitted',
+                           R.make_meta(prog, False), dl, 'C01', _judge_meta)
+    shapes = [('F', [1]), ('FF', [1, 2]), ('FF', [1, 1])] if tier == 'quick' else [('F', [1]), ('FF', [1, 2]), ('FF', [1, 1]), ('FFF', [1, 2, 3]), ('DSF', [0, 0, 1])]
+    cases = _bcases(shapes, ['none']) + _bcases([('FS', [1, 0])], ['none'], sym_meta=True)
+    rep.bounds['backup_cases'] = [BC.case_name(c) for c in cases]
+    BC.run_cases(rep, prog, cases, dl, 'C01', 'a fault-free backup records every entry with the source\'s metadata and addresses that resolve to exactly the file\'s bytes, without errors')
+
+
+CHECKS = {'C01': check_C01, 'C16': check_C16, 'C18': check_C18, 'C11': check_C11, 'C12': check_C12, 'C08': check_C08, 'C05': check_C05, 'C03': check_C03, 'C04': check_C04,
           'C13': check_C13, 'C14': check_C14, 'C07': check_C07}
 
 
